@@ -1,6 +1,7 @@
 //! e57h — conformance harness binding the TLA+ specification in /verif/spec to cry-inc/e57.
 //! It drives the real code and records what happened; verdicts are TLC's.
 mod alloc;
+mod bits;
 mod c07;
 mod c15;
 mod c16;
@@ -46,6 +47,7 @@ fn main() {
         "e57-read" => prog::read_cases(&arg(&args, "--cases").expect("--cases"), &out),
         "untrusted-run" => untrusted::run(&arg(&args, "--bases").expect("--bases"), &arg(&args, "--muts").expect("--muts"), argn(&args, "--from", 0) as usize, &out),
         "dump-bases" => untrusted::dump_bases(&arg(&args, "--bases").expect("--bases"), &out),
+        "bits-replay" => bits::replay(&arg(&args, "--edges").expect("--edges"), &out),
         "e57-run" => prog::run_programs(&arg(&args, "--progs").expect("--progs"), &out),
         "simple-run" => simple::run(&arg(&args, "--progs").expect("--progs"), &out),
         "page-replay-r" => page::replay_r(&arg(&args, "--edges").expect("--edges"), &out),
